@@ -11,6 +11,8 @@
 //!   and re-split by the harness.
 //! * `faults`: one fault per stream; reference verdict from RFC 5936/1995.
 //! * `difflaw`: InMemoryZoneDiff returned by commit()/apply().
+//! * `writers`, `sender-updates` (schedules.rs): overlapping writers of one
+//!   zone; AXFR served while the sender's zone is committed to new versions.
 use crate::engine::*;
 use crate::gen::name::{self as gn, Labels};
 use crate::gen::*;
@@ -22,6 +24,7 @@ use std::collections::BTreeMap;
 pub mod lib_io;
 pub mod model;
 pub mod wirepack;
+mod schedules;
 
 use lib_io::*;
 use model::*;
@@ -1286,6 +1289,10 @@ fn health(c: &BTreeMap<String, u64>, _thorough: bool) -> Result<(), String> {
         "fault:drop-msg", "fault:dup-msg", "fault:swap-msgs", "fault:truncate-bytes", "fault:flip-qr", "fault:opcode", "fault:rcode", "fault:tc", "fault:qtype",
         "fault:first-not-soa", "fault:only-first-record", "verdict:single-soa", "fault:missing-final-soa", "fault:different-final-soa", "fault:extra-record-after-end", "fault:ancount-zero", "fault:nscount", "fault:qdcount-2",
         "writable-zone-nodes", "updater-delete-add", "updater-delete-all-then-add", "rrset-ttl-change",
+        // schedules
+        "writer-asks-for-the-zone-while-another-holds-it", "queued-writer-follows-a-commit", "queued-writer-follows-an-abandoned-writer", "writer-breaks-off-after-changes", "two-writers-queued", "writers-diff-checked",
+        "writer:updater-delete-add", "writer:updater-ixfr-batch", "writer:updater-delete-all-then-add", "writer:writable-zone-nodes",
+        "commit-between-accept-and-walk", "commit-while-walk-queued-on-semaphore", "commit-after-k-messages", "commit-lands-inside-the-response-stream", "commit-before-request",
     ] {
         if c.get(k).copied().unwrap_or(0) < 10 {
             return Err(format!("class {k} starved ({})", c.get(k).copied().unwrap_or(0)));
@@ -1297,7 +1304,7 @@ fn health(c: &BTreeMap<String, u64>, _thorough: bool) -> Result<(), String> {
 pub fn prop() -> Option<Prop> {
     Some(Prop {
         id: "C10",
-        rule: "non-trivial = the response stream has >= 2 messages, or it is an IXFR with >= 1 deleted and >= 1 added record, or (faults) the fault sits after the first message of a stream / in a stream of >= 2 messages; (difflaw) the change deletes and adds records; distinct by (mode, versions, cut points, packaging options, fault)",
+        rule: "non-trivial = the response stream has >= 2 messages, or it is an IXFR with >= 1 deleted and >= 1 added record, or (faults) the fault sits after the first message of a stream / in a stream of >= 2 messages; (difflaw) the change deletes and adds records; (writers) a writer asks for the zone while another one holds it open; (sender-updates) a commit of the sender's zone lands between accepting the request and the end of the response stream; distinct by (mode, versions, cut points, packaging options, fault)",
         assumptions: &[
             "zones are compared through walk() as sets of (owner lower-cased, class, type, TTL, RDATA multiset)",
             "matching message ID / question of follow-up messages is documented as the caller's job and is not demanded from the interpreter",
@@ -1310,6 +1317,8 @@ pub fn prop() -> Option<Prop> {
             SubCheck::new("sender", run_sender, 7000, 25_000, 1500),
             SubCheck::new("faults", run_faults, 24000, 120_000, 1200),
             SubCheck::new("difflaw", run_difflaw, 12000, 60_000, 1200),
+            SubCheck::new("writers", schedules::run_writers, 6000, 30_000, 1200),
+            SubCheck::new("sender-updates", schedules::run_sender_updates, 3000, 12_000, 1200),
         ],
         health: Some(health),
         extra: None,
